@@ -1,16 +1,13 @@
 (* C09 - every renderer is total: it never panics, and failure is an error
-   with no text.  Statements only.
-
-   Full statement (DESIGN section 6):
-     forall h, wf_hist h -> forall fmt style reg,
-       render fmt style reg (view_of (run h)) <> Panic
-       /\ (render_string (render ...) = Ok (s, true) -> s = []).
-   It is assembled from one totality theorem per renderer model over every
-   well-formed view, the core's invariant (no row longer than the column
-   count: view_wf), and the Render() wrapper below.  The per-renderer parts
-   are added to this file as the renderer models are merged; each one listed
-   here is proved for ALL views (no bound on rows, cells or bytes). *)
+   with no text.  Statements only (proofs: Proofs/TotalProofs.v and the
+   renderers' own proof files). *)
 From Tab Require Import Model.RenderString Model.Csv Proofs.CsvProofs.
+From Tab Require Model.Core Spec.History Proofs.CoreSim.
+From Tab Require Model.Cell Proofs.CellProofs Proofs.TotalProofs.
+From Tab Require Model.Markdown Proofs.MarkdownProofs.
+From Tab Require Model.Json Proofs.JsonErrProofs.
+From Tab Require Model.Text Model.Decoration Spec.TextLayout Proofs.TextProps.
+From Tab Require Model.Html Proofs.HtmlProofs.
 
 (* Render(): an error always comes with the empty string, whatever RenderTo did *)
 Theorem c09_error_no_text : forall (r : res bytes) s, render_string r = Ok (s, true) -> s = [].
@@ -30,3 +27,46 @@ Proof.
   - intros Hwf Hn. destruct (csv_succeeds v Hwf Hn) as (out & ->). exists out. reflexivity.
 Qed.
 Print Assumptions c09_csv_total.
+
+(* THE COMPOSITION.  For every history of building calls (Model/Core.v: every
+   interleaving of AddHeaders, AddRowItems, NewRow / NewRowSizedFor + Row.Add +
+   AddRow, AppendNewRow + Row.Add on the attached row, AddSeparator, misuse on
+   separators) over ARBITRARY items - any dynamic type, any combination of
+   String/GoString/Error/Height/TerminalCellWidth, declared sizes of any sign
+   and magnitude, nested cells (Model/Cell.v) - the view the renderers see is
+   well-formed, and on it: CSV, Markdown and JSON never panic (any width
+   measure W, any encoding/json oracle); the text renderer never panics under
+   any complete or boxless decoration when the table has a column, and refuses
+   the empty decoration with an error; HTML always renders, whatever id, class,
+   caption and row-class generator.  The text renderer on a table with NO
+   column is not covered by a theorem (the executions of the check cover it). *)
+Theorem c09_total :
+  forall (W : bytes -> nat) (e : Cell.env) (json : Cell.item -> option bytes) (strenc : bytes -> bytes)
+         (h : list (Ops.op Cell.item)),
+  History.wf_hist h ->
+  let v := Core.view_of (Cell.vcell_of_item W e json) (Core.run h) in
+  wf_view v
+  /\ render_string (csv_render v) <> Panic
+  /\ render_string (Markdown.md_render W v) <> Panic
+  /\ render_string (Json.json_render strenc v) <> Panic
+  /\ (forall d, 1 <= v_ncols v -> TextLayout.dec_ok d -> render_string (Text.text_render W d v) <> Panic)
+  /\ (forall d, Decoration.is_empty_decoration d = true -> render_string (Text.text_render W d v) = Ok ([], true))
+  /\ (forall id cls cap have rcs, HtmlProofs.rc_fit (Html.mkHtmlIn id cls cap have rcs v) ->
+        exists out, render_string (Html.html_render (Html.mkHtmlIn id cls cap have rcs v)) = Ok (out, false)).
+Proof.
+  intros W e json strenc h Hwf v.
+  assert (Hv : wf_view v) by (apply CoreSim.view_wf; exact Hwf).
+  split; [exact Hv|].
+  split; [apply c09_render_string_no_panic, csv_no_panic|].
+  split; [apply c09_render_string_no_panic, MarkdownProofs.md_no_panic, Hv|].
+  split; [apply c09_render_string_no_panic, JsonErrProofs.json_no_panic, Hv|].
+  split.
+  { intros d Hn Hd. apply c09_render_string_no_panic, TextProps.no_panic_proof; try assumption.
+    apply TotalProofs.view_of_cells_all. intros a. apply TotalProofs.vcell_of_item_cell_ok. }
+  split.
+  { intros d Hd. rewrite (TextProps.empty_decoration_err_proof W d v Hd). reflexivity. }
+  intros id cls cap have rcs Hfit.
+  destruct (HtmlProofs.html_no_panic _ Hfit) as (r & Hr).
+  exists (fst r). unfold Html.html_render. rewrite Hr. reflexivity.
+Qed.
+Print Assumptions c09_total.
